@@ -39,12 +39,21 @@ pub fn iter_map_collect<'a, T: 'a, U, F: Fn(&'a T) -> U>(s: &'a [T], f: F) -> (v
 {
     s.iter().map(f).collect()
 }
-// (a << 8 | b) on u16 is the big-endian value of the two bytes (bit-vector fact, PROVED)
+// (a << 8 | b) on u16 is the big-endian value of the two bytes, in the spellings a maintainer might use (bit-vector facts, PROVED)
 pub proof fn lemma_shl8_or(a: u8, b: u8)
-    ensures ((a as u16) << 8 | b as u16) as int == (a as int) * 256 + (b as int)
+    ensures ((a as u16) << 8 | b as u16) as int == (a as int) * 256 + (b as int),
+            (b as u16 | (a as u16) << 8) as int == (a as int) * 256 + (b as int),
+            (((a as u16) << 8) + b as u16) as int == (a as int) * 256 + (b as int),
+            ((a as u16) * 256 + b as u16) as int == (a as int) * 256 + (b as int),
+            ((a as u16) << 8 ^ b as u16) as int == (a as int) * 256 + (b as int),
 {
     assert(((a as u16) << 8 | b as u16) == (a as u16) * 256 + (b as u16)) by (bit_vector);
+    assert((b as u16 | (a as u16) << 8) == (a as u16) * 256 + (b as u16)) by (bit_vector);
+    assert(((a as u16) << 8) == (a as u16) * 256) by (bit_vector);
+    assert(((a as u16) << 8 ^ b as u16) == (a as u16) * 256 + (b as u16)) by (bit_vector);
 }
+// parity of a length, in both spellings
+pub proof fn lemma_parity(n: usize) ensures (n & 1) == n % 2 { assert((n & 1) == n % 2) by (bit_vector); }
 // ---------------------------------------------------------------------------------------------
 // Rule R18: `<&[u8] as TryInto<&[u8; N]>>::try_into` (the zero-copy reference conversion), named as a function (vstd specifies try_into
 // through its TryFromSpec trait, which cannot be implemented for std's array types from outside):
